@@ -98,16 +98,6 @@ func (c *CFG) AssertionProved(ta *ast.TypeAssertExpr) (bool, string) {
 			return true
 		})
 	}
-	// interpret a branch condition: returns (type key, polarity when cond is true, interpreted)
-	var interp func(e ast.Expr) (string, bool, bool)
-	interp = func(e ast.Expr) (string, bool, bool) {
-		e = Unparen(e)
-		if u, ok := e.(*ast.UnaryExpr); ok && u.Op == token.NOT {
-			k, pol, ok := interp(u.X)
-			return k, !pol, ok
-		}
-		return "", false, false
-	}
 	seen := map[string]bool{}
 	witness := ""
 	var walk func(b *cfg.Block, from int, s state) bool
@@ -135,33 +125,104 @@ func (c *CFG) AssertionProved(ta *ast.TypeAssertExpr) (bool, string) {
 			apply(&s, b.Nodes[i])
 		}
 		if br, ok := c.BranchOf(b); ok && br.Tag == nil {
-			cond := Unparen(br.Cond)
-			pol := true
-			for {
-				u, isNot := cond.(*ast.UnaryExpr)
-				if !isNot || u.Op != token.NOT {
-					break
+			// the condition as a formula over the tracked ok variables (!, &&, ||); anything else is unknown.
+			// The ok variables were computed before the branch, so splitting on their values is sound
+			// whatever part of the condition is actually evaluated.
+			var atoms []string
+			seenAtom := map[string]bool{}
+			var collect func(e ast.Expr)
+			collect = func(e ast.Expr) {
+				switch x := Unparen(e).(type) {
+				case *ast.UnaryExpr:
+					if x.Op == token.NOT {
+						collect(x.X)
+					}
+				case *ast.BinaryExpr:
+					if x.Op == token.LAND || x.Op == token.LOR {
+						collect(x.X)
+						collect(x.Y)
+					}
+				case *ast.Ident:
+					if tk, tracked := s.oks[ObjOf(info, x)]; tracked && !seenAtom[tk] {
+						seenAtom[tk] = true
+						atoms = append(atoms, tk)
+					}
 				}
-				cond = Unparen(u.X)
-				pol = !pol
 			}
-			if id, isID := cond.(*ast.Ident); isID {
-				if tk, tracked := s.oks[ObjOf(info, id)]; tracked {
-					for _, side := range []struct {
-						blk *cfg.Block
-						val bool
-					}{{br.True, pol}, {br.Else, !pol}} {
-						if prev, known := s.facts[tk]; known && prev != side.val {
-							continue // infeasible: contradicts an earlier test of the same type
+			collect(br.Cond)
+			if len(atoms) > 0 && len(atoms) <= 4 {
+				// three-valued evaluation: 1 true, 0 false, -1 unknown
+				var eval func(e ast.Expr, asg map[string]bool) int
+				eval = func(e ast.Expr, asg map[string]bool) int {
+					switch x := Unparen(e).(type) {
+					case *ast.UnaryExpr:
+						if x.Op == token.NOT {
+							if v := eval(x.X, asg); v >= 0 {
+								return 1 - v
+							}
+							return -1
 						}
-						ns := clone(s)
-						ns.facts[tk] = side.val
-						if !walk(side.blk, 0, ns) {
+					case *ast.BinaryExpr:
+						l, r := eval(x.X, asg), -1
+						if x.Op == token.LAND || x.Op == token.LOR {
+							r = eval(x.Y, asg)
+						}
+						switch x.Op {
+						case token.LAND:
+							if l == 0 || r == 0 {
+								return 0
+							}
+							if l == 1 && r == 1 {
+								return 1
+							}
+						case token.LOR:
+							if l == 1 || r == 1 {
+								return 1
+							}
+							if l == 0 && r == 0 {
+								return 0
+							}
+						}
+						return -1
+					case *ast.Ident:
+						if tk, tracked := s.oks[ObjOf(info, x)]; tracked {
+							if asg[tk] {
+								return 1
+							}
+							return 0
+						}
+					}
+					return -1
+				}
+				for m := 0; m < 1<<len(atoms); m++ {
+					asg := map[string]bool{}
+					feasible := true
+					for j, a := range atoms {
+						asg[a] = m&(1<<j) != 0
+						if prev, known := s.facts[a]; known && prev != asg[a] {
+							feasible = false // contradicts an earlier test of the same type
+						}
+					}
+					if !feasible {
+						continue
+					}
+					ns := clone(s)
+					for a, v := range asg {
+						ns.facts[a] = v
+					}
+					v := eval(br.Cond, asg)
+					if v != 0 {
+						if !walk(br.True, 0, clone(ns)) {
 							return false
 						}
 					}
-					return true
+					if v != 1 {
+						if !walk(br.Else, 0, clone(ns)) {
+							return false
+						}
+					}
 				}
+				return true
 			}
 		}
 		for _, succ := range b.Succs {
@@ -171,7 +232,6 @@ func (c *CFG) AssertionProved(ta *ast.TypeAssertExpr) (bool, string) {
 		}
 		return true
 	}
-	_ = interp
 	ok = walk(c.Entry(), 0, state{map[string]bool{}, map[types.Object]string{}})
 	return ok, witness
 }
